@@ -30,6 +30,23 @@ fn obs_of(r: &EncRun) -> String {
 
 pub const K_QUERYHOP: &str = "K-C06-QUERYHOP";
 
+thread_local! {
+    static ALLOWED_IID: std::cell::Cell<Option<u8>> = const { std::cell::Cell::new(None) };
+}
+fn allowed_iid() -> Option<u8> {
+    ALLOWED_IID.with(|c| c.get())
+}
+/// The instance id of the last valid control request in a history, if any.
+fn last_request_iid(history: &[Event]) -> Option<u8> {
+    history.iter().rev().find_map(|e| match e {
+        Event::Process(p) | Event::Decode(p) => {
+            let rd = ref_decode(p);
+            (rd.class == Class::Accept && rd.is_control && rd.is_request).then(|| p[9] & 0x1F)
+        }
+        _ => None,
+    })
+}
+
 /// The oracle.  `probe` is a second context (other address, configuration and
 /// history) used by C04's length-probe clause.
 pub fn judge_enc(
@@ -196,6 +213,18 @@ pub fn judge_enc(
                         let got = &r.buf[start..n - 1];
                         let want = &e[start..e.len() - 1];
                         let claimed_all = !(prop == "C07" && matches!(call_cc(call), Some(c) if c != 0));
+                        // C07 speaks of the Rq, D and reserved bits, not of the instance id: a response
+                        // that carries the instance id of the request the context received last is as
+                        // the statement requires (whether it *should* is C12's question)
+                        let mut want = want.to_vec();
+                        if prop == "C07" && !got.is_empty() && !want.is_empty() {
+                            if let Some(iid) = allowed_iid() {
+                                if got[0] & 0xE0 == want[0] & 0xE0 && got[0] & 0x1F == iid {
+                                    want[0] = got[0];
+                                }
+                            }
+                        }
+                        let want = &want[..];
                         let same = if claimed_all { got == want } else { got.len() >= 3 && got[..3] == want[..3] };
                         if !same {
                             if prop == "C06" && is_query_hop_finding(call, e, &r.buf[..n]) {
@@ -728,6 +757,56 @@ pub fn sweep_enc_thrash(run: &mut Run, prop: &'static str) {
     });
 }
 
+/// The control-header axis of *received* traffic before an encoder call: a
+/// context that has just decoded or processed a control message whose first
+/// header byte (Rq, D, reserved bit, instance id) takes each of its 256 values
+/// -- as a request (Get Endpoint ID, Set Endpoint ID, Get Version) when Rq is
+/// set, as a Success response otherwise -- then encodes each basic call.
+/// Nothing of a received header may show in what the library encodes next.
+pub fn sweep_enc_after_ctrl_header(run: &mut Run, prop: &'static str) {
+    let cfg = encseq_cfg();
+    let basic = basic_calls();
+    let nb = basic.len() as u64;
+    run.sweep("received control header axis: byte 9 in 0..=255 x 3 messages x {decoded, processed}, then each basic encoder call", 256 * 3 * 2 * nb, |acc, i| {
+        let mut ix = Ix(i);
+        let call = &basic[ix.take(nb) as usize];
+        let processed = ix.take(2) == 1;
+        let which = ix.take(3);
+        let b9 = ix.take(256) as u8;
+        let mut pkt = if b9 & 0x80 != 0 {
+            match which {
+                0 => forge_request(0x10, SEQ_OWN, 0, false, 0x02, &[]),
+                1 => forge_request(0x10, SEQ_OWN, 0, false, 0x01, &[0x00, 0x56]),
+                _ => forge_request(0x10, SEQ_OWN, 0, false, 0x04, &[0xFF]),
+            }
+        } else {
+            match which {
+                0 => forge_response(0x34, SEQ_OWN, 0, 0x01, 0, &[0x00, 0x56, 0x00]),
+                1 => forge_response(0x34, SEQ_OWN, 0, 0x04, 0, &[0x01, 0xF1, 0xF3, 0xF1, 0x00]),
+                _ => forge_response(0x34, SEQ_OWN, 0, 0x03, 0, &[0xC3; 16]),
+            }
+        };
+        pkt[9] = b9;
+        fix_pec(&mut pkt);
+        let history = vec![if processed { Event::Process(pkt) } else { Event::Decode(pkt) }];
+        acc.evals += 1;
+        let j = judge_encseq(prop, &cfg, &history, call, 0x34, false, false);
+        acc.trans += 2;
+        acc.validated += 1;
+        acc.state(Fnv::default().u64(0xC7B9).u64(i / nb).finish());
+        if j.produced {
+            acc.nontrivial(Fnv::default().u64(0xC7BA).u64(i).finish());
+        }
+        acc.outcome2("after-ctrl-header", if j.produced { "ok" } else { "no-packet" });
+        if let Some(kf) = j.known {
+            acc.known(kf, || json!({"call": call, "dst": 0x34}));
+        }
+        for (kind, d) in j.viols {
+            acc.violation(1, kind, format!("after a received control message with header byte {:#04x}: {}", b9, d), || json!({"prop": prop, "check": "encseq", "cfg": cfg, "history": history, "call": call, "dst": 0x34, "reuse": false}));
+        }
+    });
+}
+
 /// Run-lengths around 2^16 calls and 2^24 generated bytes: one encoder call (a
 /// 12-byte request or a maximal 259-byte vendor message) repeated 64 774..=64 779
 /// or 65 535..=65 537 times on one context, optionally after storing an EID and
@@ -816,14 +895,14 @@ pub fn sweep_damaged_prefill(run: &mut Run, prop: &'static str) {
     });
 }
 
-fn encseq_cfg() -> Cfg {
+pub fn encseq_cfg() -> Cfg {
     Cfg { addr: SEQ_OWN, msg_types: vec![0x7E, 0x05], vendors: vec![(0, 0x1414, 4), (1, 0xDEADBEEF, 9)] }
 }
 
 /// Judge the last call of a sequence: the history (all but the last event) is
 /// replayed on a fresh context; if the event just before the last is an encoder
 /// call and `reuse` is set, its output stays in the buffer the last call writes to.
-fn judge_encseq(prop: &str, cfg: &Cfg, history: &[Event], call: &EncCall, dst: u8, reuse: bool, want_obs: bool) -> Judged {
+pub fn judge_encseq(prop: &str, cfg: &Cfg, history: &[Event], call: &EncCall, dst: u8, reuse: bool, want_obs: bool) -> Judged {
     let owned = Owned::new(cfg);
     let ps = probe_spec();
     let po = Owned::new(&ps.cfg);
@@ -844,7 +923,9 @@ fn judge_encseq(prop: &str, cfg: &Cfg, history: &[Event], call: &EncCall, dst: u
         build(&owned, history)
     };
     set_prefill(prefill);
+    ALLOWED_IID.with(|c| c.set(last_request_iid(history)));
     let j = judge_enc(prop, &ctx, &probe, cfg.addr, eid_resp, call, dst, 0, want_obs);
+    ALLOWED_IID.with(|c| c.set(None));
     set_prefill(None);
     j
 }
@@ -991,6 +1072,7 @@ pub fn run_c03(run: &mut Run) {
     enc_pairs(run, "C03");
     sweep_encdeep(run, "C03");
     sweep_enc_thrash(run, "C03");
+    sweep_enc_after_ctrl_header(run, "C03");
     sweep_enc_long_runs(run, "C03");
     sweep_damaged_prefill(run, "C03");
 }
@@ -1086,6 +1168,7 @@ pub fn run_c04(run: &mut Run) {
     enc_pairs(run, "C04");
     sweep_encdeep(run, "C04");
     sweep_enc_thrash(run, "C04");
+    sweep_enc_after_ctrl_header(run, "C04");
     sweep_enc_long_runs(run, "C04");
 }
 
@@ -1106,6 +1189,7 @@ pub fn run_c05(run: &mut Run) {
     enc_pairs(run, "C05");
     sweep_encdeep(run, "C05");
     sweep_enc_thrash(run, "C05");
+    sweep_enc_after_ctrl_header(run, "C05");
     sweep_enc_long_runs(run, "C05");
 }
 
@@ -1127,6 +1211,7 @@ pub fn run_c06(run: &mut Run) {
     enc_pairs(run, "C06");
     sweep_encdeep(run, "C06");
     sweep_enc_thrash(run, "C06");
+    sweep_enc_after_ctrl_header(run, "C06");
     sweep_enc_long_runs(run, "C06");
 }
 
@@ -1191,6 +1276,7 @@ pub fn run_c07(run: &mut Run) {
     enc_pairs(run, "C07");
     sweep_encdeep(run, "C07");
     sweep_enc_thrash(run, "C07");
+    sweep_enc_after_ctrl_header(run, "C07");
     sweep_enc_long_runs(run, "C07");
 }
 
@@ -1231,6 +1317,7 @@ pub fn run_c08(run: &mut Run) {
     sweep_encseq(run, "C08");
     sweep_encdeep(run, "C08");
     sweep_enc_thrash(run, "C08");
+    sweep_enc_after_ctrl_header(run, "C08");
     sweep_enc_long_runs(run, "C08");
 }
 
@@ -1251,6 +1338,7 @@ pub fn run_c16(run: &mut Run) {
     enc_pairs(run, "C16");
     sweep_encdeep(run, "C16");
     sweep_enc_thrash(run, "C16");
+    sweep_enc_after_ctrl_header(run, "C16");
     sweep_enc_long_runs(run, "C16");
     sweep_damaged_prefill(run, "C16");
 }
